@@ -16,11 +16,11 @@ References
       general tensor, (3.1.30) Christoffel symbol, App. C.2 Lie derivative.
  [C]  S. Carroll, Spacetime and Geometry (2004): (3.17) covariant derivative,
       (3.27) Christoffel, (3.34) divergence, (3.113) Riemann, (3.144) Ricci,
-      (3.145) Ricci scalar, App. B (B.13–B.14) Lie derivative in components.
+      (3.145) Ricci scalar, App. B Lie derivative in components.
  [A]  M. Alcubierre, Introduction to 3+1 Numerical Relativity (2008):
-      (2.8.10) Γ̃^i, (2.8.14) conformal Christoffel, (2.8.16)–(2.8.18)
+      §2.8 conformal connection functions Γ̃^i := γ̃^{jk}Γ̃^i_{jk} = −∂_jγ̃^{ij}, (2.8.14) conformal Christoffel, (2.8.16)–(2.8.18)
       R_ij = R̃_ij + R^φ_ij, §2.8 Lie derivative of a tensor density of weight w
-      (adds `w T ∂_kβ^k`); (8.3.14)–(8.3.15) electric/magnetic parts use
+      (adds `w T ∂_kβ^k`); the magnetic part of the Weyl tensor (§8.3) uses
       ε^{cd}{}_a D_c f_{bd}.
 -/
 import Mathlib.Algebra.BigOperators.Fin
@@ -92,7 +92,7 @@ def divU2 (cov : Fin n → Fin n → Fin n → K) (b : Fin n) : K := ∑ a, cov 
 def divD2 (γup : Fin n → Fin n → K) (cov : Fin n → Fin n → Fin n → K) (b : Fin n) : K :=
   ∑ c, ∑ a, γup c a * cov c a b
 
-/-! ### Lie derivative along a vector β ([W] App. C.2, [C] (B.13)–(B.14)):
+/-! ### Lie derivative along a vector β ([W] App. C.2, [C] App. B):
 `L_β T = β^k ∂_k T − T^{…k…} ∂_k β^a` per upper index `a`, `+ T_{…k…} ∂_a β^k` per lower index `a`,
 `+ w (∂_k β^k) T` for a tensor density of weight `w` ([A] §2.8).
 `dβ c a = ∂_c β^a`. -/
@@ -150,7 +150,7 @@ def gammaBssnok (D : Fin 3 → K → K) (Γ : Fin 3 → Fin 3 → Fin 3 → K) (
   Γ k i j - 2 * ((if k = i then D j φ else 0) + (if k = j then D i φ else 0)
     - γ i j * ∑ l, γup k l * D l φ)
 
-/-- [A] (2.8.10): `Γ̃^i = −∂_j γ̃^{ij}`. -/
+/-- [A] §2.8, conformal connection functions: `Γ̃^i = −∂_j γ̃^{ij}`. -/
 def gammaVec (D : Fin 3 → K → K) (γtup : Fin 3 → Fin 3 → K) (i : Fin 3) : K := -∑ j, D j (γtup i j)
 
 /-- `Γ̃_{ijk} = γ̃_{il} Γ̃^l_{jk}`. -/
